@@ -95,7 +95,7 @@ Proof. vm_compute. reflexivity. Qed.
 Example O01_body_goose_Ctx_defineStmt :
   has_body func_bodies "goose.Ctx.defineStmt"
     "func(s *ast.AssignStmt) coq.Binding"
-    "{ if len(s.Rhs) > 1 { ctx.futureWork(s, ""multiple defines (split them up)"") } rhs := s.Rhs[0] var idents []*ast.Ident for _, lhsExpr := range s.Lhs { if ident, ok := lhsExpr.(*ast.Ident); ok { idents = append(idents, ident) } else { ctx.nope(lhsExpr, ""defining a non-identifier"") } } var names []string for _, ident := range idents { names = append(names, ident.Name) } if len(idents) == 1 && ctx.isPtrWrapped(idents[0]) { return coq.Binding{Names: names, Expr: ctx.referenceTo(rhs)} } else { return coq.Binding{Names: names, Expr: ctx.exprSpecial(rhs, len(idents) == 2)} } }" = true.
+    "{ if len(s.Rhs) > 1 { ctx.futureWork(s, ""multiple defines (split them up)"") } rhs := s.Rhs[0] var idents []*ast.Ident for _, lhsExpr := range s.Lhs { if ident, ok := lhsExpr.(*ast.Ident); ok { idents = append(idents, ident) } else { ctx.nope(lhsExpr, ""defining a non-identifier"") } } if len(idents) > 4 { ctx.unsupported(s, ""destructuring more than 4 return values"") } var names []string for _, ident := range idents { names = append(names, ident.Name) } if len(idents) == 1 && ctx.isPtrWrapped(idents[0]) { return coq.Binding{Names: names, Expr: ctx.referenceTo(rhs)} } else { return coq.Binding{Names: names, Expr: ctx.exprSpecial(rhs, len(idents) == 2)} } }" = true.
 Proof. vm_compute. reflexivity. Qed.
 
 Example O01_body_goose_Ctx_varSpec :
@@ -125,7 +125,7 @@ Proof. vm_compute. reflexivity. Qed.
 Example O01_body_goose_Ctx_assignFromTo :
   has_body func_bodies "goose.Ctx.assignFromTo"
     "func(s ast.Node, lhs ast.Expr, rhs coq.Expr) coq.Binding"
-    "{ switch lhs := lhs.(type) { case *ast.Ident: if lhs.Name == ""_"" { return coq.NewAnon(rhs) } if ctx.isPtrWrapped(lhs) { return ctx.pointerAssign(lhs, rhs) } ctx.unsupported(s, ""variable %s is not assignable\n\t(declare it with 'var' to pointer-wrap in GooseLang and support re-assignment)"", lhs.Name) case *ast.IndexExpr: targetTy := ctx.typeOf(lhs.X) switch targetTy := targetTy.(type) { case *types.Slice: value := rhs return coq.NewAnon(coq.NewCallExpr( coq.GallinaIdent(""SliceSet""), ctx.coqTypeOfType(lhs, targetTy.Elem()), ctx.expr(lhs.X), ctx.expr(lhs.Index), value)) case *types.Map: value := rhs return coq.NewAnon(coq.NewCallExpr( coq.GallinaIdent(""MapInsert""), ctx.expr(lhs.X), ctx.expr(lhs.Index), value)) default: ctx.unsupported(s, ""index update to unexpected target of type %v"", targetTy) } case *ast.StarExpr: info, ok := ctx.getStructInfo(ctx.typeOf(lhs.X)) if ok && info.throughPointer { return coq.NewAnon(coq.NewCallExpr(coq.GallinaIdent(""struct.store""), coq.StructDesc(info.name), ctx.expr(lhs.X), rhs)) } dstPtrTy, ok := ctx.typeOf(lhs.X).Underlying().(*types.Pointer) if !ok { ctx.unsupported(s, ""could not identify element type of assignment through pointer"") } return coq.NewAnon(coq.StoreStmt{ Dst: ctx.expr(lhs.X), Ty: ctx.coqTypeOfType(s, dstPtrTy.Elem()), X: rhs, }) case *ast.SelectorExpr: ty := ctx.typeOf(lhs.X) info, ok := ctx.getStructInfo(ty) var structExpr coq.Expr if info.throughPointer { structExpr = ctx.expr(lhs.X) } else { structExpr = ctx.refExpr(lhs.X) } if ok { fieldName := lhs.Sel.Name return coq.NewAnon(coq.NewCallExpr(coq.GallinaIdent(""struct.storeF""), coq.StructDesc(info.name), coq.GallinaString(fieldName), structExpr, rhs)) } ctx.unsupported(s, ""assigning to field of non-struct type %v"", ty) default: ctx.unsupported(s, ""assigning to complex expression"") } return coq.Binding{} }" = true.
+    "{ switch lhs := lhs.(type) { case *ast.Ident: if lhs.Name == ""_"" { return coq.NewAnon(rhs) } if ctx.isPtrWrapped(lhs) { return ctx.pointerAssign(lhs, rhs) } ctx.unsupported(s, ""variable %s is not assignable\n\t(declare it with 'var' to pointer-wrap in GooseLang and support re-assignment)"", lhs.Name) case *ast.IndexExpr: targetTy := ctx.typeOf(lhs.X) switch targetTy := targetTy.(type) { case *types.Slice: value := rhs return coq.NewAnon(coq.NewCallExpr( coq.GallinaIdent(""SliceSet""), ctx.coqTypeOfType(lhs, targetTy.Elem()), ctx.expr(lhs.X), ctx.expr(lhs.Index), value)) case *types.Map: value := rhs return coq.NewAnon(coq.NewCallExpr( coq.GallinaIdent(""MapInsert""), ctx.expr(lhs.X), ctx.expr(lhs.Index), value)) default: ctx.unsupported(s, ""index update to unexpected target of type %v"", targetTy) } case *ast.StarExpr: info, ok := ctx.getStructInfo(ctx.typeOf(lhs.X)) if ok && info.throughPointer { return coq.NewAnon(coq.NewCallExpr(coq.GallinaIdent(""struct.store""), coq.StructDesc(info.name), ctx.expr(lhs.X), rhs)) } dstPtrTy, ok := ctx.typeOf(lhs.X).Underlying().(*types.Pointer) if !ok { ctx.unsupported(s, ""could not identify element type of assignment through pointer"") } return coq.NewAnon(coq.StoreStmt{ Dst: ctx.expr(lhs.X), Ty: ctx.coqTypeOfType(s, dstPtrTy.Elem()), X: rhs, }) case *ast.SelectorExpr: ty := ctx.typeOf(lhs.X) info, ok := ctx.getStructInfo(ty) var structExpr coq.Expr if info.throughPointer { structExpr = ctx.expr(lhs.X) } else { if x, isIdent := lhs.X.(*ast.Ident); isIdent && ok && !ctx.isPtrWrapped(x) { ctx.unsupported(s, ""variable %s is not assignable\n\t(declare it with 'var' to pointer-wrap in GooseLang and support re-assignment)"", x.Name) } structExpr = ctx.refExpr(lhs.X) } if ok { fieldName := lhs.Sel.Name return coq.NewAnon(coq.NewCallExpr(coq.GallinaIdent(""struct.storeF""), coq.StructDesc(info.name), coq.GallinaString(fieldName), structExpr, rhs)) } ctx.unsupported(s, ""assigning to field of non-struct type %v"", ty) default: ctx.unsupported(s, ""assigning to complex expression"") } return coq.Binding{} }" = true.
 Proof. vm_compute. reflexivity. Qed.
 
 Example O01_body_goose_Ctx_pointerAssign :
@@ -137,7 +137,7 @@ Proof. vm_compute. reflexivity. Qed.
 Example O01_body_goose_Ctx_multipleAssignStmt :
   has_body func_bodies "goose.Ctx.multipleAssignStmt"
     "func(s *ast.AssignStmt) coq.Binding"
-    "{ if len(s.Rhs) > 1 { ctx.unsupported(s, ""multiple assignments on right hand side"") } rhs := ctx.expr(s.Rhs[0]) if s.Tok != token.ASSIGN { ctx.unsupported(s, ""%v multiple assignment"", s.Tok) } names := make([]string, len(s.Lhs)) for i := 0; i < len(names); i += 1 { names[i] = fmt.Sprintf(""%d_ret"", i) } multipleRetBinding := coq.Binding{Names: names, Expr: rhs} coqStmts := make([]coq.Binding, len(s.Lhs)+1) coqStmts[0] = multipleRetBinding for i, name := range names { coqStmts[i+1] = ctx.assignFromTo(s, s.Lhs[i], coq.IdentExpr(name)) } return coq.Binding{Names: make([]string, 0), Expr: coq.BlockExpr{Bindings: coqStmts}} }" = true.
+    "{ if len(s.Rhs) > 1 { ctx.unsupported(s, ""multiple assignments on right hand side"") } rhs := ctx.expr(s.Rhs[0]) if s.Tok != token.ASSIGN { ctx.unsupported(s, ""%v multiple assignment"", s.Tok) } if len(s.Lhs) > 4 { ctx.unsupported(s, ""assigning more than 4 return values"") } names := make([]string, len(s.Lhs)) for i := 0; i < len(names); i += 1 { names[i] = fmt.Sprintf(""%d_ret"", i) } multipleRetBinding := coq.Binding{Names: names, Expr: rhs} coqStmts := make([]coq.Binding, len(s.Lhs)+1) coqStmts[0] = multipleRetBinding for i, name := range names { coqStmts[i+1] = ctx.assignFromTo(s, s.Lhs[i], coq.IdentExpr(name)) } return coq.Binding{Names: make([]string, 0), Expr: coq.BlockExpr{Bindings: coqStmts}} }" = true.
 Proof. vm_compute. reflexivity. Qed.
 
 Example O01_body_goose_Ctx_incDecStmt :
@@ -179,7 +179,7 @@ Proof. vm_compute. reflexivity. Qed.
 Example O01_body_goose_Ctx_exprSpecial :
   has_body func_bodies "goose.Ctx.exprSpecial"
     "func(e ast.Expr, isSpecial bool) coq.Expr"
-    "{ switch e := e.(type) { case *ast.CallExpr: return ctx.callExpr(e) case *ast.MapType: return ctx.mapType(e) case *ast.Ident: return ctx.identExpr(e) case *ast.SelectorExpr: return ctx.selectExpr(e) case *ast.CompositeLit: return ctx.compositeLiteral(e) case *ast.BasicLit: return ctx.basicLiteral(e) case *ast.BinaryExpr: return ctx.binExpr(e) case *ast.SliceExpr: return ctx.sliceExpr(e) case *ast.IndexExpr: return ctx.indexExpr(e, isSpecial) case *ast.UnaryExpr: return ctx.unaryExpr(e) case *ast.ParenExpr: return ctx.expr(e.X) case *ast.StarExpr: return ctx.derefExpr(e.X) case *ast.TypeAssertExpr: return ctx.expr(e.X) case *ast.FuncLit: return ctx.funcLit(e) default: ctx.unsupported(e, ""unexpected expr"") } return nil }" = true.
+    "{ switch e := e.(type) { case *ast.CallExpr: return ctx.callExpr(e) case *ast.MapType: return ctx.mapType(e) case *ast.Ident: return ctx.identExpr(e) case *ast.SelectorExpr: return ctx.selectExpr(e) case *ast.CompositeLit: return ctx.compositeLiteral(e) case *ast.BasicLit: return ctx.basicLiteral(e) case *ast.BinaryExpr: return ctx.binExpr(e) case *ast.SliceExpr: return ctx.sliceExpr(e) case *ast.IndexExpr: return ctx.indexExpr(e, isSpecial) case *ast.UnaryExpr: return ctx.unaryExpr(e) case *ast.ParenExpr: return ctx.expr(e.X) case *ast.StarExpr: return ctx.derefExpr(e.X) case *ast.TypeAssertExpr: if isSpecial { ctx.unsupported(e, ""type assertion with ok result"") } return ctx.expr(e.X) case *ast.FuncLit: return ctx.funcLit(e) default: ctx.unsupported(e, ""unexpected expr"") } return nil }" = true.
 Proof. vm_compute. reflexivity. Qed.
 
 Example O01_body_goose_Ctx_expr :
@@ -191,7 +191,7 @@ Proof. vm_compute. reflexivity. Qed.
 Example O01_body_goose_Ctx_binExpr :
   has_body func_bodies "goose.Ctx.binExpr"
     "func(e *ast.BinaryExpr) coq.Expr"
-    "{ op, ok := map[token.Token]coq.BinOp{ token.LSS: coq.OpLessThan, token.GTR: coq.OpGreaterThan, token.SUB: coq.OpMinus, token.EQL: coq.OpEquals, token.NEQ: coq.OpNotEquals, token.MUL: coq.OpMul, token.QUO: coq.OpQuot, token.REM: coq.OpRem, token.LEQ: coq.OpLessEq, token.GEQ: coq.OpGreaterEq, token.AND: coq.OpAnd, token.LAND: coq.OpLAnd, token.OR: coq.OpOr, token.LOR: coq.OpLOr, token.XOR: coq.OpXor, token.SHL: coq.OpShl, token.SHR: coq.OpShr, }[e.Op] if e.Op == token.ADD { if isString(ctx.typeOf(e.X)) { op = coq.OpAppend } else { op = coq.OpPlus } ok = true } if ok { expr := coq.BinaryExpr{ X: ctx.expr(e.X), Op: op, Y: ctx.expr(e.Y), } if ctx.isNilCompareExpr(e) { if _, ok := ctx.typeOf(e.X).(*types.Pointer); ok { expr.Y = coq.Null } } return expr } ctx.unsupported(e, ""binary operator %v"", e.Op) return nil }" = true.
+    "{ op, ok := map[token.Token]coq.BinOp{ token.LSS: coq.OpLessThan, token.GTR: coq.OpGreaterThan, token.SUB: coq.OpMinus, token.EQL: coq.OpEquals, token.NEQ: coq.OpNotEquals, token.MUL: coq.OpMul, token.QUO: coq.OpQuot, token.REM: coq.OpRem, token.LEQ: coq.OpLessEq, token.GEQ: coq.OpGreaterEq, token.AND: coq.OpAnd, token.LAND: coq.OpLAnd, token.OR: coq.OpOr, token.LOR: coq.OpLOr, token.XOR: coq.OpXor, token.SHL: coq.OpShl, token.SHR: coq.OpShr, }[e.Op] if isString(ctx.typeOf(e.X)) { switch e.Op { case token.LSS, token.GTR, token.LEQ, token.GEQ: ctx.unsupported(e, ""ordering comparison %v of strings"", e.Op) return nil } } if e.Op == token.ADD { if isString(ctx.typeOf(e.X)) { op = coq.OpAppend } else { op = coq.OpPlus } ok = true } if ok { expr := coq.BinaryExpr{ X: ctx.expr(e.X), Op: op, Y: ctx.expr(e.Y), } if ctx.isNilCompareExpr(e) { if _, ok := ctx.typeOf(e.X).(*types.Pointer); ok { expr.Y = coq.Null } } return expr } ctx.unsupported(e, ""binary operator %v"", e.Op) return nil }" = true.
 Proof. vm_compute. reflexivity. Qed.
 
 Example O01_body_goose_Ctx_unaryExpr :
@@ -203,7 +203,7 @@ Proof. vm_compute. reflexivity. Qed.
 Example O01_body_goose_Ctx_basicLiteral :
   has_body func_bodies "goose.Ctx.basicLiteral"
     "func(e *ast.BasicLit) coq.Expr"
-    "{ if e.Kind == token.STRING { v := ctx.info.Types[e].Value s := constant.StringVal(v) if strings.ContainsRune(s, '""') { ctx.unsupported(e, ""string literals with quotes"") } return coq.StringLiteral{Value: s} } if e.Kind == token.INT { info, _ := getIntegerType(ctx.typeOf(e)) v := ctx.info.Types[e].Value n, ok := constant.Uint64Val(v) if !ok { ctx.unsupported(e, ""int literals must be positive numbers"") return nil } if info.isUint64() { return coq.IntLiteral{Value: n} } else if info.isUint32() { return coq.Int32Literal{Value: uint32(n)} } else if info.isUint8() { return coq.ByteLiteral{Value: uint8(n)} } } ctx.unsupported(e, ""literal with kind %s"", e.Kind) return nil }" = true.
+    "{ if e.Kind == token.STRING { v := ctx.info.Types[e].Value s := constant.StringVal(v) if strings.ContainsRune(s, '""') { ctx.unsupported(e, ""string literals with quotes"") } if strings.ContainsRune(s, '\n') { ctx.unsupported(e, ""string literals with newlines"") } return coq.StringLiteral{Value: s} } if e.Kind == token.INT { info, _ := getIntegerType(ctx.typeOf(e)) v := ctx.info.Types[e].Value if v.Kind() != constant.Int { ctx.unsupported(e, ""int literal used at type %v"", ctx.typeOf(e)) return nil } n, ok := constant.Uint64Val(v) if !ok { ctx.unsupported(e, ""int literals must be positive numbers"") return nil } if info.isUint64() { return coq.IntLiteral{Value: n} } else if info.isUint32() { return coq.Int32Literal{Value: uint32(n)} } else if info.isUint8() { return coq.ByteLiteral{Value: uint8(n)} } } ctx.unsupported(e, ""literal with kind %s"", e.Kind) return nil }" = true.
 Proof. vm_compute. reflexivity. Qed.
 
 Example O01_body_goose_Ctx_integerConversion :
@@ -215,7 +215,7 @@ Proof. vm_compute. reflexivity. Qed.
 Example O01_body_goose_Ctx_callExpr :
   has_body func_bodies "goose.Ctx.callExpr"
     "func(s *ast.CallExpr) coq.Expr"
-    "{ if isIdent(s.Fun, ""make"") { return ctx.makeExpr(s.Args) } if isIdent(s.Fun, ""new"") { return ctx.newExpr(s.Args[0]) } if isIdent(s.Fun, ""len"") { return ctx.lenExpr(s) } if isIdent(s.Fun, ""cap"") { return ctx.capExpr(s) } if isIdent(s.Fun, ""append"") { elemTy := sliceElem(ctx.typeOf(s.Args[0]).Underlying()) if s.Ellipsis == token.NoPos { return coq.NewCallExpr(coq.GallinaIdent(""SliceAppend""), ctx.coqTypeOfType(s, elemTy), ctx.expr(s.Args[0]), ctx.expr(s.Args[1])) } return coq.NewCallExpr(coq.GallinaIdent(""SliceAppendSlice""), ctx.coqTypeOfType(s, elemTy), ctx.expr(s.Args[0]), ctx.expr(s.Args[1])) } if isIdent(s.Fun, ""copy"") { return ctx.copyExpr(s, s.Args[0], s.Args[1]) } if isIdent(s.Fun, ""delete"") { if _, ok := ctx.typeOf(s.Args[0]).(*types.Map); !ok { ctx.unsupported(s, ""delete on non-map"") } return coq.NewCallExpr(coq.GallinaIdent(""MapDelete""), ctx.expr(s.Args[0]), ctx.expr(s.Args[1])) } if isIdent(s.Fun, ""uint64"") { return ctx.integerConversion(s, s.Args[0], 64) } if isIdent(s.Fun, ""uint32"") { return ctx.integerConversion(s, s.Args[0], 32) } if isIdent(s.Fun, ""uint8"") || isIdent(s.Fun, ""byte"") { return ctx.integerConversion(s, s.Args[0], 8) } if isIdent(s.Fun, ""panic"") { msg := ""oops"" if e, ok := s.Args[0].(*ast.BasicLit); ok { if e.Kind == token.STRING { v := ctx.info.Types[e].Value msg = constant.StringVal(v) } } return coq.NewCallExpr(coq.GallinaIdent(""Panic""), coq.GallinaString(msg)) } if _, ok := s.Fun.(*ast.SelectorExpr); ok { } else { if signature, ok := ctx.typeOf(s.Fun).(*types.Signature); ok { for j := 0; j < signature.Params().Len(); j++ { if _, ok := signature.Params().At(j).Type().Underlying().(*types.Interface); ok { interfaceName := signature.Params().At(j).Type().String() structName := ctx.typeOf(s.Args[0]).String() interfaceName = unqualifyName(interfaceName) structName = unqualifyName(structName) if interfaceName != structName && interfaceName != """" && structName != """" { conversion := coq.StructToInterfaceDecl{ Fun: ctx.expr(s.Fun).Coq(true), Struct: structName, Interface: interfaceName, Arg: ctx.expr(s.Args[0]).Coq(true), }.Coq(true) for i, arg := range s.Args { if i > 0 { conversion += "" "" + ctx.expr(arg).Coq(true) } } return coq.CallExpr{MethodName: coq.GallinaIdent(conversion)} } } } } } return ctx.methodExpr(s) }" = true.
+    "{ isBuiltin := func(name string) bool { id, ok := s.Fun.(*ast.Ident) return ok && id.Name == name && ctx.goBuiltin(id) } if isBuiltin(""make"") { return ctx.makeExpr(s.Args) } if isBuiltin(""new"") { return ctx.newExpr(s.Args[0]) } if isBuiltin(""len"") { return ctx.lenExpr(s) } if isBuiltin(""cap"") { return ctx.capExpr(s) } if isBuiltin(""append"") { elemTy := sliceElem(ctx.typeOf(s.Args[0]).Underlying()) if s.Ellipsis == token.NoPos { return coq.NewCallExpr(coq.GallinaIdent(""SliceAppend""), ctx.coqTypeOfType(s, elemTy), ctx.expr(s.Args[0]), ctx.expr(s.Args[1])) } return coq.NewCallExpr(coq.GallinaIdent(""SliceAppendSlice""), ctx.coqTypeOfType(s, elemTy), ctx.expr(s.Args[0]), ctx.expr(s.Args[1])) } if isBuiltin(""copy"") { return ctx.copyExpr(s, s.Args[0], s.Args[1]) } if isBuiltin(""delete"") { if _, ok := ctx.typeOf(s.Args[0]).(*types.Map); !ok { ctx.unsupported(s, ""delete on non-map"") } return coq.NewCallExpr(coq.GallinaIdent(""MapDelete""), ctx.expr(s.Args[0]), ctx.expr(s.Args[1])) } if isBuiltin(""uint64"") { return ctx.integerConversion(s, s.Args[0], 64) } if isBuiltin(""uint32"") { return ctx.integerConversion(s, s.Args[0], 32) } if isBuiltin(""uint8"") || isBuiltin(""byte"") { return ctx.integerConversion(s, s.Args[0], 8) } if isBuiltin(""panic"") { msg := ""oops"" if e, ok := s.Args[0].(*ast.BasicLit); ok { if e.Kind == token.STRING { v := ctx.info.Types[e].Value msg = constant.StringVal(v) } } msg = strings.ReplaceAll(msg, ""\"""", ""\""\"""") return coq.NewCallExpr(coq.GallinaIdent(""Panic""), coq.GallinaString(msg)) } if _, ok := s.Fun.(*ast.SelectorExpr); ok { } else { if signature, ok := ctx.typeOf(s.Fun).(*types.Signature); ok { for j := 0; j < signature.Params().Len(); j++ { if _, ok := signature.Params().At(j).Type().Underlying().(*types.Interface); ok { interfaceName := signature.Params().At(j).Type().String() structName := ctx.typeOf(s.Args[0]).String() interfaceName = unqualifyName(interfaceName) structName = unqualifyName(structName) if interfaceName != structName && interfaceName != """" && structName != """" { conversion := coq.StructToInterfaceDecl{ Fun: ctx.expr(s.Fun).Coq(true), Struct: structName, Interface: interfaceName, Arg: ctx.expr(s.Args[0]).Coq(true), }.Coq(true) for i, arg := range s.Args { if i > 0 { conversion += "" "" + ctx.expr(arg).Coq(true) } } return coq.CallExpr{MethodName: coq.GallinaIdent(conversion)} } } } } } return ctx.methodExpr(s) }" = true.
 Proof. vm_compute. reflexivity. Qed.
 
 Example O01_body_goose_Ctx_methodExpr :
@@ -269,7 +269,7 @@ Proof. vm_compute. reflexivity. Qed.
 Example O01_body_goose_Ctx_compositeLiteral :
   has_body func_bodies "goose.Ctx.compositeLiteral"
     "func(e *ast.CompositeLit) coq.Expr"
-    "{ if _, ok := ctx.typeOf(e).Underlying().(*types.Slice); ok { if len(e.Elts) == 0 { elemTy := ctx.coqType(e.Type).(coq.SliceType).Value zeroLit := coq.IntLiteral{Value: 0} return coq.NewCallExpr(coq.GallinaIdent(""NewSlice""), elemTy, zeroLit) } if len(e.Elts) == 1 { return ctx.newCoqCall(""SliceSingleton"", []ast.Expr{e.Elts[0]}) } ctx.unsupported(e, ""slice literal with multiple elements"") return nil } info, ok := ctx.getStructInfo(ctx.typeOf(e)) if ok { return ctx.structLiteral(info, e) } ctx.unsupported(e, ""composite literal of type %v"", ctx.typeOf(e)) return nil }" = true.
+    "{ if _, ok := ctx.typeOf(e).Underlying().(*types.Slice); ok { if len(e.Elts) == 0 { var elemTy coq.Type if sliceTy, ok := ctx.coqType(e.Type).(coq.SliceType); ok { elemTy = sliceTy.Value } else { elemTy = ctx.coqTypeOfType(e, sliceElem(ctx.typeOf(e).Underlying())) } zeroLit := coq.IntLiteral{Value: 0} return coq.NewCallExpr(coq.GallinaIdent(""NewSlice""), elemTy, zeroLit) } if len(e.Elts) == 1 { return ctx.newCoqCall(""SliceSingleton"", []ast.Expr{e.Elts[0]}) } ctx.unsupported(e, ""slice literal with multiple elements"") return nil } info, ok := ctx.getStructInfo(ctx.typeOf(e)) if ok { return ctx.structLiteral(info, e) } ctx.unsupported(e, ""composite literal of type %v"", ctx.typeOf(e)) return nil }" = true.
 Proof. vm_compute. reflexivity. Qed.
 
 Example O01_body_goose_Ctx_structLiteral :
@@ -324,38 +324,6 @@ Example O01_body_goose_Ctx_setPtrWrapped :
   has_body func_bodies "goose.Ctx.setPtrWrapped"
     "func(ident *ast.Ident)"
     "{ obj := ctx.getObj(ident) ctx.idents.isPtrWrapped[obj] = true }" = true.
-Proof. vm_compute. reflexivity. Qed.
-
-Example O01_tab_table_binExpr :
-  pairs_eqb table_binExpr [
-  ("token.LSS", "coq.OpLessThan"); 
-  ("token.GTR", "coq.OpGreaterThan"); 
-  ("token.SUB", "coq.OpMinus"); 
-  ("token.EQL", "coq.OpEquals"); 
-  ("token.NEQ", "coq.OpNotEquals"); 
-  ("token.MUL", "coq.OpMul"); 
-  ("token.QUO", "coq.OpQuot"); 
-  ("token.REM", "coq.OpRem"); 
-  ("token.LEQ", "coq.OpLessEq"); 
-  ("token.GEQ", "coq.OpGreaterEq"); 
-  ("token.AND", "coq.OpAnd"); 
-  ("token.LAND", "coq.OpLAnd"); 
-  ("token.OR", "coq.OpOr"); 
-  ("token.LOR", "coq.OpLOr"); 
-  ("token.XOR", "coq.OpXor"); 
-  ("token.SHL", "coq.OpShl"); 
-  ("token.SHR", "coq.OpShr")
-] = true.
-Proof. vm_compute. reflexivity. Qed.
-
-Example O01_tab_table_assignStmt :
-  pairs_eqb table_assignStmt [
-  ("token.ADD_ASSIGN", "coq.OpPlus"); 
-  ("token.SUB_ASSIGN", "coq.OpMinus"); 
-  ("token.OR_ASSIGN", "coq.OpOr"); 
-  ("token.AND_ASSIGN", "coq.OpAnd"); 
-  ("token.XOR_ASSIGN", "coq.OpXor")
-] = true.
 Proof. vm_compute. reflexivity. Qed.
 
 Example O01_body_coq_BinaryExpr_Coq :
@@ -506,4 +474,36 @@ Example O01_body_coq_flowBranch :
   has_body func_bodies "coq.flowBranch"
     "func(pp *buffer, prefix string, e Expr, suffix string)"
     "{ code := e.Coq(false) + suffix if !strings.ContainsRune(code, '\n') { indent := pp.Block(prefix+"" "", ""%s"", code) pp.Indent(-indent) return } pp.AddLine(prefix) pp.Indent(2) pp.AddLine(code) pp.Indent(-2) }" = true.
+Proof. vm_compute. reflexivity. Qed.
+
+Example O01_tab_table_binExpr :
+  pairs_eqb table_binExpr [
+  ("token.LSS", "coq.OpLessThan"); 
+  ("token.GTR", "coq.OpGreaterThan"); 
+  ("token.SUB", "coq.OpMinus"); 
+  ("token.EQL", "coq.OpEquals"); 
+  ("token.NEQ", "coq.OpNotEquals"); 
+  ("token.MUL", "coq.OpMul"); 
+  ("token.QUO", "coq.OpQuot"); 
+  ("token.REM", "coq.OpRem"); 
+  ("token.LEQ", "coq.OpLessEq"); 
+  ("token.GEQ", "coq.OpGreaterEq"); 
+  ("token.AND", "coq.OpAnd"); 
+  ("token.LAND", "coq.OpLAnd"); 
+  ("token.OR", "coq.OpOr"); 
+  ("token.LOR", "coq.OpLOr"); 
+  ("token.XOR", "coq.OpXor"); 
+  ("token.SHL", "coq.OpShl"); 
+  ("token.SHR", "coq.OpShr")
+] = true.
+Proof. vm_compute. reflexivity. Qed.
+
+Example O01_tab_table_assignStmt :
+  pairs_eqb table_assignStmt [
+  ("token.ADD_ASSIGN", "coq.OpPlus"); 
+  ("token.SUB_ASSIGN", "coq.OpMinus"); 
+  ("token.OR_ASSIGN", "coq.OpOr"); 
+  ("token.AND_ASSIGN", "coq.OpAnd"); 
+  ("token.XOR_ASSIGN", "coq.OpXor")
+] = true.
 Proof. vm_compute. reflexivity. Qed.
